@@ -204,6 +204,10 @@ pub fn write_unwind_info(spec: &MachoSpec) -> Vec<u8> {
 pub const EH_FRAME_OFFSET: u64 = 0x10_0000;
 
 pub fn build_macho_module(arch: Arch, name: &str, m: &ModSpec, spec: &MachoSpec) -> framehop::Module<Bytes> {
+    framehop::Module::new(name.to_string(), m.start..m.end, m.base_avma, macho_section_info(arch, m, spec))
+}
+
+pub fn macho_section_info(arch: Arch, m: &ModSpec, spec: &MachoSpec) -> framehop::ExplicitModuleSectionInfo<Bytes> {
     let mut info: framehop::ExplicitModuleSectionInfo<Bytes> = framehop::ExplicitModuleSectionInfo {
         base_svma: m.base_svma,
         ..Default::default()
@@ -233,7 +237,7 @@ pub fn build_macho_module(arch: Arch, name: &str, m: &ModSpec, spec: &MachoSpec)
         info.eh_frame_svma = Some(eh_svma..eh_svma + eh.bytes.len() as u64);
         info.eh_frame = Some(b(eh.bytes));
     }
-    framehop::Module::new(name.to_string(), m.start..m.end, m.base_avma, info)
+    info
 }
 
 // ------------------------------------------------------------------------------------------
@@ -637,7 +641,8 @@ fn random_opcode(p: &mut Prng, fde_offsets: &[u64]) -> u32 {
 /// Random compact unwind tables (every opcode kind, valid and invalid operands, text present,
 /// partial or absent) looked up at random addresses with random thread states, compared with
 /// the model answer by answer.
-fn random_history<H: ArchH>(rep: &mut Report, p: &mut Prng, arch: Arch, id: u64) {
+/// A random Mach-O module (see `random_history`) and the relative addresses worth probing.
+pub fn gen_random_macho(p: &mut Prng, arch: Arch) -> (ModSpec, Vec<u64>) {
     let text_off = *p.pick(&[0x1000u64, 0x1000, 0x4000, 0]);
     let n_funcs = 1 + p.below(6) as usize;
     let mut funcs: Vec<Func> = Vec::new();
@@ -738,6 +743,23 @@ fn random_history<H: ArchH>(rep: &mut Report, p: &mut Prng, arch: Arch, id: u64)
         dbg_version: 4,
         n_cies: 1,
     };
+    let mut addrs: Vec<u64> = Vec::new();
+    for w2 in entries.windows(2) {
+        let (a, b) = (w2[0].0 as u64, w2[1].0 as u64);
+        addrs.extend_from_slice(&[a, a + 1, a + 4, b - 1, a + (b - a) / 2]);
+    }
+    for f in &funcs {
+        for i in 0..f.insns.len() {
+            addrs.push(text_off + f.start + f.offset_of(i));
+        }
+    }
+    addrs.extend_from_slice(&[text_end as u64, text_end as u64 + 0x2f, text_end as u64 + 0x30, text_end as u64 + 0x47, text_end as u64 + 0x6f, text_end as u64 + 0x70, text_end as u64 + 0x17f, text_off, text_off + 8]);
+    (m, addrs)
+}
+
+fn random_history<H: ArchH>(rep: &mut Report, p: &mut Prng, arch: Arch, id: u64) {
+    let (m, addrs) = gen_random_macho(p, arch);
+    let base_avma = m.base_avma;
     let mut w: World<H> = World::new();
     let n_slots = crate::hist::cache_entry_count();
     let mut lines = vec![w.init_line(0, n_slots)];
@@ -767,17 +789,6 @@ fn random_history<H: ArchH>(rep: &mut Report, p: &mut Prng, arch: Arch, id: u64)
     run_op(&mut w, rep, Op::NewCache { c: "c0".into() });
     run_op(&mut w, rep, Op::Mod { m: "m0".into(), spec: m.clone() });
     run_op(&mut w, rep, Op::Add { u: "u0".into(), m: "m0".into() });
-    let mut addrs: Vec<u64> = Vec::new();
-    for w2 in entries.windows(2) {
-        let (a, b) = (w2[0].0 as u64, w2[1].0 as u64);
-        addrs.extend_from_slice(&[a, a + 1, a + 4, b - 1, a + (b - a) / 2]);
-    }
-    for f in &funcs {
-        for i in 0..f.insns.len() {
-            addrs.push(text_off + f.start + f.offset_of(i));
-        }
-    }
-    addrs.extend_from_slice(&[text_end as u64, text_end as u64 + 0x2f, text_end as u64 + 0x30, text_end as u64 + 0x47, text_end as u64 + 0x6f, text_end as u64 + 0x70, text_end as u64 + 0x17f, text_off, text_off + 8]);
     let n_ops = 12 + p.below(20);
     for _ in 0..n_ops {
         let rel = *p.pick(&addrs);
